@@ -414,3 +414,18 @@ Definition chk_C20_hist := chk_hist mon_C20.
 (* queries: the model's answer against the implementation's *)
 Definition chk_query (model out : res (list N)) : verdict :=
   V (match model, out with Ok a, Ok b => nlist_eqb a b | Err _, Err _ => true | _, _ => false end) true false (is_ok out).
+
+(* ------------------------------------------------------------------ *)
+(* Asset::assert_sent_native_token_balance at function level (C09)      *)
+(* ------------------------------------------------------------------ *)
+(* kind: true = native; identifiers and denoms are byte strings, compared exactly *)
+Definition c09_helper_ok (native : bool) (id : list N) (amount : N) (funds : list (list N * N)) (out : res unit) : bool :=
+  if native then
+    match find (fun c => ident_eqb (fst c) id) funds with
+    | Some c => if snd c =? amount then is_ok out else negb (is_ok out)
+    | None => if amount =? 0 then is_ok out else negb (is_ok out)
+    end
+  else is_ok out.
+Definition chk_C09_sent_native (native : bool) (id : list N) (amount : N) (funds : list (list N * N)) (out : res unit) : verdict :=
+  V (ures_eqb (assert_sent_native (if native then Native id else Token id) amount funds) out)
+    (c09_helper_ok native id amount funds out) false native.
